@@ -14,34 +14,31 @@ Ltac zfin := repeat match goal with
   | H : (_ =? _) = true |- _ => apply Z.eqb_eq in H
   | H : (_ =? _) = false |- _ => apply Z.eqb_neq in H end; lia.
 
-Theorem xform_icc_sufficient_partial : forall x, valid_setup x ->
-  no_source_profile_case x = false -> after_get_case x = false -> icc_written x <= size_term x.
+(* for every TJPARAM_SAVEMARKERS value, copy option, source and instance profile of any size,
+   tj3GetICCProfile() called or not *)
+Theorem xform_icc_sufficient_all : xform_icc_sufficient_full.
 Proof.
   intros [s cn src inst got] (Hs & Hsrc & Hinst).
-  unfold no_source_profile_case, after_get_case, icc_written, size_term, copied_bytes, inst_bytes, icc_copied,
-    saved_icc, copy_opt, temp_icc. cbn [x_save x_copynone x_src x_inst x_got] in *.
+  unfold icc_written, size_term, size_term_with, copied_bytes, inst_bytes, icc_copied, saved_icc, copy_opt, temp_icc_with.
+  cbn [x_save x_copynone x_src x_inst x_got] in *.
   assert (B1 : (0 <? src) = negb (src =? 0)).
   { destruct (src =? 0) eqn:E; [apply Z.eqb_eq in E; subst; reflexivity|]. apply Z.eqb_neq in E. apply Z.ltb_lt. lia. }
-  assert (B2 : (0 <? inst) = negb (inst =? 0)).
-  { destruct (inst =? 0) eqn:E; [apply Z.eqb_eq in E; subst; reflexivity|]. apply Z.eqb_neq in E. apply Z.ltb_lt. lia. }
-  rewrite B1, B2. clear B1 B2.
+  rewrite B1. clear B1.
   unfold gen_size_term, gen_copy_option, gen_icc_copied, gen_writes_inst, gen_saves_app2, gen_copies_app2,
     gen_header_extracts, gen_get_zeroes_temp.
   destruct (save_cases s Hs) as [->|[->|[->|[->| ->]]]]; destruct cn, got;
-    destruct (src =? 0) eqn:E3; destruct (inst =? 0) eqn:E4; cbn; intros; try discriminate; try zfin.
+    destruct (src =? 0) eqn:E3; destruct (inst =? 0) eqn:E4; cbn; rewrite ?E3, ?E4; cbn; try zfin.
 Qed.
 
-(* (i) source without profile, instance profile, default SAVEMARKERS, no COPYNONE *)
+(* the two rules before the fixes are refuted:
+   (i)  source without profile, instance profile, default SAVEMARKERS, no COPYNONE (old size rule)
+   (ii) tj3GetICCProfile() before tj3TransformBufSize() when it still reset tempICCSize *)
 Definition setup_i : xsetup := mkX 2 false 0 3000 false.
-(* (ii) tj3GetICCProfile() before tj3TransformBufSize() *)
 Definition setup_ii : xsetup := mkX 2 false 3000 0 true.
 
-Lemma xform_icc_witnesses :
-  (valid_setup setup_i /\ size_term setup_i = 0 /\ icc_written setup_i = 3000) /\
-  (valid_setup setup_ii /\ size_term setup_ii = 0 /\ icc_written setup_ii = 3000).
+Lemma xform_icc_old_rules_refuted :
+  (valid_setup setup_i /\ size_term_with old_size_term_rule false setup_i = 0 /\ icc_written setup_i = 3000 /\
+   size_term setup_i = 3000) /\
+  (valid_setup setup_ii /\ size_term_with gen_size_term true setup_ii = 0 /\ icc_written setup_ii = 3000 /\
+   size_term setup_ii = 3000).
 Proof. unfold valid_setup. vm_compute. repeat split; intros; discriminate. Qed.
-
-Theorem xform_icc_sufficient_refuted : ~ xform_icc_sufficient_full.
-Proof.
-  intros H. destruct xform_icc_witnesses as ((V & T & W) & _). specialize (H setup_i V). rewrite T, W in H. lia.
-Qed.
